@@ -95,7 +95,29 @@ def make_args(spec):
         return (SlowPickle(a[1]),)
     if a[0] == "blob":
         return (b"x" * int(a[1]),)
+    if a[0] == "blob_then_bad":
+        # a large picklable part first (the pickler flushes it), then an object that fails to pickle
+        return (b"y" * int(a[1]), list(range(2000)), BadPickle(a[2]))
+    if a[0] == "shared":
+        # memo back-references: the same objects passed several times
+        L = list(range(int(a[1])))
+        t = ("tag", int(a[1]))
+        return (L, L, t, t, "after")
     raise ValueError(a)
+
+
+def digest(args):
+    """A small JSON-able summary of positional arguments as received (identity structure included)."""
+    out = []
+    for i, x in enumerate(args):
+        same = [j for j in range(i) if args[j] is x]
+        if isinstance(x, (bytes, bytearray)):
+            out.append(["bytes", len(x), x[:4].decode("latin1"), same])
+        elif isinstance(x, (list, tuple)):
+            out.append([type(x).__name__, len(x), repr(x[:3]), repr(x[-2:]), same])
+        else:
+            out.append([type(x).__name__, repr(x)[:60], same])
+    return out
 
 
 # ---------------------------------------------------------------- initializers
@@ -176,7 +198,7 @@ def _die(how, code):
     if how == "sig":
         import signal
 
-        os.kill(os.getpid(), getattr(signal, code))
+        os.kill(os.getpid(), code if isinstance(code, int) else getattr(signal, code))
         time.sleep(10)
     elif how == "exit":
         os._exit(code)
@@ -284,6 +306,8 @@ def run(spec, tid, *extra):
     try:
         if k == "ok":
             r = ["ok", tid, spec.get("x")]
+        elif k == "echo":
+            r = ["echo", tid, digest(extra)]
         elif k == "sleep":
             time.sleep(spec["d"])
             r = ["slept", tid]
@@ -337,11 +361,15 @@ def expected(spec, tid):
     if a is not None:
         if a[0] == "bad_pickle":
             return ("unsendable", "RuntimeError" if a[1] == "struct.error" else "PicklingError")
+        if a[0] == "blob_then_bad":
+            return ("unsendable", "RuntimeError" if a[2] == "struct.error" else "PicklingError")
         if a[0] == "bad_unpickle":
             return ("special", "breaks_pool")
     k = spec["k"]
     if k == "ok":
         return ("value", ["ok", tid, spec.get("x")])
+    if k == "echo":
+        return ("value", ["echo", tid, digest(make_args(spec))])
     if k == "sleep":
         return ("value", ["slept", tid])
     if k == "raise":
